@@ -104,6 +104,41 @@ PARSERS = {'api_route': 0, 'api_announce_v4': 1, 'api_announce_v6': 2, 'api_flow
 ACTIONS = {'': 0, 'announce': 1, 'withdraw': 2}
 
 
+def content_of(routes) -> list | None:
+    """Routes by content: (afi, safi, NLRI index, attribute index, next hop), sorted."""
+    if routes is None:
+        return None
+    out = []
+    for r in routes:
+        a, f = r.nlri.family().afi_safi()
+        try:
+            h = str(r.nexthop)
+        except Exception:  # noqa: BLE001
+            h = '?'
+        out.append([int(a), int(f), bytes(r.nlri.index()).hex(), bytes(r.attributes.index()).hex(), h])
+    return sorted(out)
+
+
+def parse_alone(version: int, specs: list[dict], fn: int, action: int, words: list[str]) -> list | None:
+    """What the parser of a daemon that has parsed NOTHING else makes of this text (a new rig, one call)."""
+    rig = ApiRig(version, specs)
+    try:
+        api = rig.reactor.api
+        act = {v: k for k, v in ACTIONS.items()}.get(action, '')
+        command = ' '.join(words)
+        try:
+            if fn == 6:
+                rig._orig_group_parse(api, command, act)
+            else:
+                name = {v: k for k, v in PARSERS.items()}[fn]
+                getattr(api, name)(command, act)
+        except Exception:  # noqa: BLE001
+            pass
+        return rig.parse_content[-1] if rig.parse_content else None
+    finally:
+        rig.close()
+
+
 class Ids:
     """Abstract ids of routes (first appearance), shared by the parse table and the snapshots."""
 
@@ -181,6 +216,7 @@ class ApiRig:
         self.marks: list[int] = []  # number of reply lines written before each command
         self.written: list[str] = []
         self.parse_log: list[tuple] = []  # (fn, action, words, result, index of the command being executed)
+        self.parse_content: list[list | None] = []  # aligned with parse_log: the routes by content (comparable across rigs)
         self.reply_bytes = b''
         self._install_observers()
         self.initial_watchdogs = self._watchdog_state()
@@ -204,8 +240,10 @@ class ApiRig:
                 routes = call()
             except Exception:
                 self.parse_log.append((fn, ACTIONS.get(action, 9), command.split(), None, len(self.commands) - 1))
+                self.parse_content.append(None)
                 raise
             self.parse_log.append((fn, ACTIONS.get(action, 9), command.split(), self._proutes(routes), len(self.commands) - 1))
+            self.parse_content.append(content_of(routes))
             return routes
 
         for name, fn in PARSERS.items():
@@ -226,6 +264,7 @@ class ApiRig:
         def group_parse(api_, command, action='announce'):
             routes = self._orig_group_parse(api_, command, action)
             self.parse_log.append((6, ACTIONS.get(action, 9), command.split(), self._proutes(routes), len(self.commands) - 1))
+            self.parse_content.append(content_of(routes))
             return routes
 
         group_cmd._parse_routes = group_parse
@@ -404,6 +443,7 @@ class ApiRig:
             'written': list(self.written),
             'dead': SERVICE not in self.reactor.processes._process,
             'parse_log': list(self.parse_log),
+            'parse_content': list(self.parse_content),
             'version_after': getenv().api.version,
             'ack_after': self.reactor.processes._ack.get(SERVICE),
         }
